@@ -250,6 +250,17 @@ def r10_8(run, model):
                         run.ob("R10.8", f"{pred[0]}|every numeric literal type gets the conversion", not missing, site(GOC, pf.node["sp"]),
                                f"numeric types not covered: {missing or 'none'}",
                                witness="let d: dyn T = 3.0 emits data: 3 (the printer drops `.0`): Go types it int and self.(float64) panics")
+                # the arm that gives a literal operand its type is selected by the predicate alone: an extra conjunct exempts some type
+                for mm2 in S.find(arm["body"], "Match"):
+                    for a2 in mm2["arms"]:
+                        g = a2.get("guard")
+                        if g is None or "ImmPrim" not in S.norm_ws(run.facts.text(GOC, a2["pat"]["sp"])):
+                            continue
+                        gt = S.norm_ws(run.facts.text(GOC, g["sp"]))
+                        narrowed = re.search(r"&&|!=|==|matches!", gt) is not None
+                        run.ob("R10.8", "compile_cexpr|EToDyn literal conversion is selected by the numeric-literal predicate alone", not narrowed,
+                               site(GOC, a2["sp"]), f"guard: {gt[:80]}",
+                               witness="let d: dyn T = 2.0: with float64 exempted the data field is `2` (the printer drops `.0`), an int in Go; self.(float64) panics")
                 run.ob("R10.8", "compile_cexpr|EToDyn data keeps the operand's type", not bare, site(GOC, sl["sp"]),
                        f"data: {val}" + (" (a literal operand becomes an untyped Go constant)" if bare else ""),
                        witness="fn pr(d: dyn Show) ..; pr(7) emits dyn__Show{data: 7, ..}; the wrapper does self.(int32) on a Go int: run-time panic")
